@@ -577,7 +577,12 @@ class LineEval:
             raise Budget()
         rel = ctx.rel
         if isinstance(st, ast.Expr):
-            self.ev(st.value, ctx)
+            if isinstance(st.value, ast.GeneratorExp):
+                # a generator expression as a statement is built and thrown away: its body never runs, so the lines it
+                # "reads" are not read (and not demanded)
+                self.event('exhausted', f'the generator expression `{unparse(st.value, 60)}` stands alone as a statement: nothing iterates it, so what its body reads is never read', st, rel)
+            else:
+                self.ev(st.value, ctx)
         elif isinstance(st, ast.Assign):
             v = self.ev(st.value, ctx)
             for t in st.targets:
